@@ -22,6 +22,15 @@ M = {
  "c02-message-limit-off-by-two": [("p/p2pke/session.go",
    "	if atomic.LoadUint64(&s.nonce) >= MaxNonce {", "	if atomic.LoadUint64(&s.nonce) > MaxNonce+1 {"),
    ("p/p2pke/session.go", "	if s.nonce >= MaxNonce {\n		return errors.New(\"session has exceeded message limit\")", "	if s.nonce > MaxNonce+2 {\n		return errors.New(\"session has exceeded message limit\")")],
+ "c03-initdone-signature-not-verified": [("p/p2pke/session.go",
+   "	if err := verify(pubKey, purposeChannelBinding, cb, initDone.Sig); err != nil {\n		return nil, err\n	}", "	_, _ = cb, initDone")],
+ "c03-responder-ready-after-inithello": [("p/p2pke/session.go",
+   "	return (s.isInit && s.hsIndex >= nonceRespDone) || (!s.isInit && s.hsIndex >= nonceInitDone)", "	return (s.isInit && s.hsIndex >= nonceRespDone) || (!s.isInit && s.hsIndex >= nonceRespHello)"),
+   ("p/p2pke/session.go", "	return s.hsIndex >= nonceInitDone\n}", "	return s.hsIndex >= nonceRespHello\n}")],
+ "c03-resphello-signature-over-wrong-data-accepted": [("p/p2pke/session.go",
+   "	pubKey, err := verifyAuthClaim(reg, purposeChannelBinding, respHello.KeyX509, cb, respHello.Sig)\n	if err != nil {\n		return nil, err\n	}", "	pubKey, err := verifyAuthClaim(reg, purposeChannelBinding, respHello.KeyX509, cb, respHello.Sig)\n	if err != nil {\n		pk2, err2 := x509.ParsePublicKey(respHello.KeyX509)\n		if err2 != nil || len(respHello.Sig) != 64 {\n			return nil, err\n		}\n		pubKey = publicKey{Registry: reg, Key: pk2}\n	}")],
+ "c03-early-data-gate-removed": [("p/p2pke/session.go",
+   "		if !s.canReceive() {\n			return false, nil, ErrEarlyData{State: s.hsIndex, Nonce: nonce}\n		}", "		if s.cipherIn == nil {\n			return false, nil, ErrEarlyData{State: s.hsIndex, Nonce: nonce}\n		}")],
  "c06-initiator-counter-not-set-at-resphello": [("p/p2pke/session.go",
    "		s.nonce = noncePostHandshake\n		s.hsIndex = 2", "		s.hsIndex = 2")],
  "c06-initdone-accepted-in-any-state": [("p/p2pke/session.go",
